@@ -78,7 +78,7 @@ IDSET = [
     ("into_iter", "IntoIterator for IdSet", (["q_into_iter"], None, "the single history [a,b] (iterator adaptors cost CBMC ~100 s per history)"),
      (["t_into_iter_a", "t_into_iter_b", "t_into_iter_c"], None, B_Q3 + " (one harness per history)")),
     ("clone", "Clone for IdSet", (["q_clone"], None, B_Q3 + ", then one insert into the clone"),
-     (["t_clone"], None, B_H3 + ", then one insert into the clone")),
+     (["t_clone_a", "t_clone_b"], None, B_H3 + " (2 harnesses), then one insert into the clone")),
 ]
 CLONE_INDEP = ("Clone for IdSet", (["q_clone_drop", "q_clone_clear"], None,
                                     B_Q3 + " with the original dropped; [a,b,a], [a,b,c] with the original cleared and reused"),
